@@ -361,6 +361,31 @@ func (s *epSuite) reset() {
 		panic(err)
 	}
 	inflation.InitGenesis(w.Ctx, w.App.InflationKeeper, w.App.AccountKeeper, w.App.StakingKeeper, gs)
+	// The formula always yields a whole number of base units (its last step multiplies by 10^18), so truncating the
+	// stored provision is the identity in states InitGenesis produces.  To exercise "the integer part of the provision"
+	// a third of the episodes start from a stored provision with a fractional part (written through the keeper's setter,
+	// as an upgrade handler could).
+	if r.Intn(3) == 0 {
+		k := w.App.InflationKeeper
+		prov, _ := k.GetEpochMintProvision(w.Ctx)
+		if r.Intn(3) == 0 {
+			prov = sdkmath.LegacyNewDec(int64(r.Intn(4)))
+		}
+		var frac sdkmath.LegacyDec
+		switch r.Intn(6) {
+		case 0:
+			frac = sdkmath.LegacySmallestDec()
+		case 1:
+			frac = sdkmath.LegacyNewDecWithPrec(5, 1)
+		case 2:
+			frac = sdkmath.LegacyNewDecWithPrec(5, 1).Add(sdkmath.LegacySmallestDec())
+		case 3:
+			frac = sdkmath.LegacyOneDec().Sub(sdkmath.LegacySmallestDec())
+		default:
+			frac = decOf(r.Big(64).Mod(oneE18))
+		}
+		k.SetEpochMintProvision(w.Ctx, prov.Add(frac))
+	}
 	s.mints = mints0
 	s.sync()
 }
